@@ -261,6 +261,8 @@ struct Prog {
     text: String,
     /// statements with their predictions, flattened in source order
     stmts: Vec<St>,
+    /// byte offset of the line of each rule site in `text` (same order as `stmts`)
+    line_starts: Vec<usize>,
 }
 
 fn build(seed: u64) -> Prog {
@@ -275,6 +277,7 @@ fn build(seed: u64) -> Prog {
     };
     let mut text = String::new();
     let mut stmts: Vec<St> = Vec::new();
+    let mut line_starts: Vec<usize> = Vec::new();
     if stdlib {
         text.push_str("include \"stdgates.inc\";\n");
     }
@@ -314,11 +317,13 @@ fn build(seed: u64) -> Prog {
             _ => ("switch (1) { default { ", " } }", "default-body"),
         };
         st.rule = format!("{}@{sk}", st.rule);
+        line_starts.push(text.len());
         text.push_str(&format!("{pre}{}{post}\n", st.text));
         stmts.push(st);
     }
     // return at global scope / inside a def
     if g.r.chance(1, 4) {
+        line_starts.push(text.len());
         text.push_str("return;\n");
         stmts.push(St {
             text: "return;".into(),
@@ -327,6 +332,7 @@ fn build(seed: u64) -> Prog {
         });
     }
     if g.r.chance(1, 4) {
+        line_starts.push(text.len());
         text.push_str("def with_return() -> int { return 1; }\n");
         stmts.push(St {
             text: "def with_return() -> int { return 1; }".into(),
@@ -339,6 +345,7 @@ fn build(seed: u64) -> Prog {
         let inner = g.global_only_decl(false);
         let gate = g.r.bool();
         let t = if gate { format!("gate holder x9 {{ {} }}", inner.text) } else { format!("def holder() {{ {} }}", inner.text) };
+        line_starts.push(text.len());
         text.push_str(&t);
         text.push('\n');
         stmts.push(St {
@@ -347,7 +354,7 @@ fn build(seed: u64) -> Prog {
             rule: format!("{}@{}", inner.rule, if gate { "gate-body" } else { "def-body" }),
         });
     }
-    Prog { text, stmts }
+    Prog { text, stmts, line_starts }
 }
 
 fn multiset(v: &[String]) -> Vec<(String, usize)> {
@@ -400,15 +407,12 @@ fn check_prog(p: &Prog, obs: &mut Obs) {
     if multiset(&observed) != multiset(&expected) {
         // attribute: analyse each rule statement alone on top of the common preamble
         // the preamble ends where the first rule site (in text order, not in generation order) starts
-        let pre_end = p.stmts.iter().filter_map(|s| p.text.find(&s.text)).min().unwrap_or(0);
-        let mut preamble = p.text[..pre_end].to_string();
-        // keep only complete lines of the preamble
-        if let Some(i) = preamble.rfind('\n') {
-            preamble.truncate(i + 1);
-        }
+        // (line offsets are recorded at generation: searching for a site's text would also find
+        // it inside a declaration of the preamble, e.g. `kb = true;` in `const bool kb = true;`)
+        let pre_end = p.line_starts.iter().copied().min().unwrap_or(0);
+        let preamble = p.text[..pre_end].to_string();
         let mut attributed = false;
-        for s in &p.stmts {
-            let line_start = p.text.find(&s.text).map(|i| p.text[..i].rfind('\n').map(|j| j + 1).unwrap_or(0)).unwrap_or(0);
+        for (s, &line_start) in p.stmts.iter().zip(p.line_starts.iter()) {
             let line_end = p.text[line_start..].find('\n').map(|j| line_start + j).unwrap_or(p.text.len());
             let single = format!("{preamble}{}\n", &p.text[line_start..line_end]);
             if let Ok(res1) = analyse_text(&single) {
@@ -455,6 +459,8 @@ impl Property for C13 {
             let p = Prog {
                 text: text.to_string(),
                 stmts: vec![St { text: text.lines().last().unwrap_or("").to_string(), expect, rule: "explicit".into() }],
+                // the last line is the site, everything before it the preamble
+                line_starts: vec![text.trim_end_matches('\n').rfind('\n').map(|i| i + 1).unwrap_or(0)],
             };
             check_prog(&p, obs);
             return;
